@@ -589,10 +589,20 @@ func (w *world) rtspHeldBack(a *attached) *pbt.Violation {
 		}
 	}
 	// B
-	if a.playIdx >= 0 && a.playIdx < len(w.P) {
+	// (only when the session was negotiated against incarnation m itself: no input ended between the consumer's join and
+	// the moment its PLAY was seen completed, and m is the incarnation it registered in / for.  A session whose
+	// description belongs to a predecessor has no channel for the successor's tracks — what it should receive is not
+	// defined by the property, see "stayers")
+	if a.playIdx >= 0 && a.playIdx < len(w.P) && a.playEnds == a.ends0 && w.P[a.playIdx].inc == w.incAt(a.j) {
 		m := w.P[a.playIdx].inc
 		n, key := w.mediaAfter(m, a.playIdx)
 		in := w.c.Incs[m]
+		// RTSP / GB28181 inputs: lal's A/V interleave queue / PS unpacker releases a frame only when later frames of the
+		// tracks have arrived, so a key frame at the very end of the input never reaches the subscriber (not asserted, see
+		// the known finding rtsp-input/tail-lost-at-end): the key frame must be followed by more frames of every track
+		if remuxed(in.Input) && in.Codecs.Video != "" {
+			key = w.keyFollowed(m, a.playIdx, in.Codecs.Audio != "")
+		}
 		if w.endKeeps(m) && n >= 17 && (key || in.Codecs.Video == "") && !(in.Input == "gb" && n < 24) {
 			pbt.Count("heldback_rule_rtsp_rtp_due", 1)
 			got := func() bool { n, _ := rc.nframes(); return n > 0 }
@@ -602,4 +612,32 @@ func (w *world) rtspHeldBack(a *attached) *pbt.Violation {
 		}
 	}
 	return nil
+}
+
+// keyFollowed: incarnation i published, at index >= from, a key frame that is
+// followed by at least two more video messages and (withAudio) two more audio
+// messages.
+func (w *world) keyFollowed(i, from int, withAudio bool) bool {
+	lo, hi := w.bounds[i][0], w.bounds[i][1]
+	if from > lo {
+		lo = from
+	}
+	for x := lo; x < hi; x++ {
+		if !w.P[x].key {
+			continue
+		}
+		v, a := 0, 0
+		for y := x + 1; y < hi; y++ {
+			switch w.P[y].kind {
+			case "video":
+				v++
+			case "audio":
+				a++
+			}
+		}
+		if v >= 2 && (!withAudio || a >= 2) {
+			return true
+		}
+	}
+	return false
 }
